@@ -169,9 +169,15 @@ var (
 // Step is one message handed to one topic validator, together with the harness's claim about it.
 type Step struct {
 	Topic   string
-	Desc    string          // which honest message / corruption
-	Variant string          // structural tag used to identify known findings
-	Bnd     string          // boundary-value tag: which ordered comparison of the tables the message sits on, and on which side
+	Desc    string // which honest message / corruption
+	Variant string // structural tag used to identify known findings
+	Bnd     string // boundary-value tag(s), "|" separated: which comparison of the tables the message sits on, and on which side
+	// sync topics: every position ("seat") the validator / aggregator holds in the sync committee that signs at the
+	// message's slot, the subcommittee size and the subnet / subcommittee index the message claims; the trace
+	// spec recomputes compute_subnets_for_sync_committee from ALL seats
+	Seats   []int
+	SubSize int
+	Subnet  int
 	Cond    map[string]bool // truth value of every cache-independent condition of the topic's table
 	Key     map[string][]string
 	Now     time.Duration
@@ -197,6 +203,9 @@ type Event struct {
 	Desc    string              `json:"desc"`
 	Variant string              `json:"variant"`
 	Bnd     string              `json:"bnd"`
+	Seats   []int               `json:"seats"`
+	SubSize int                 `json:"subsize"`
+	Subnet  int                 `json:"subnet"`
 	Cond    map[string]int      `json:"cond"`
 	Key     map[string][]string `json:"key"`
 	Pre     map[string]int      `json:"pre"`
@@ -218,10 +227,11 @@ func b2i(b bool) int {
 // runHistory executes a history on fresh caches and returns its events (first one: Reset).
 func runHistory(v *View, h *History, hi int) []Event {
 	out := []Event{{Ev: "Reset", H: hi, Scen: h.Scen, Name: h.Name, Cond: map[string]int{"_": 0},
-		Key: map[string][]string{"_": {}}, Pre: map[string]int{"_": 0}, Marks: [][2]string{}, Seens: [][2]string{}, Out: "ok"}}
+		Key: map[string][]string{"_": {}}, Pre: map[string]int{"_": 0}, Marks: [][2]string{}, Seens: [][2]string{}, Seats: []int{}, Out: "ok"}}
 	b := NewBackend(v)
 	for i, st := range h.Steps {
 		ev := Event{Ev: "Msg", H: hi, I: i, Scen: h.Scen, Name: h.Name, Topic: st.Topic, Desc: st.Desc, Variant: st.Variant, Bnd: bndOf(st),
+			Seats: append([]int{}, st.Seats...), SubSize: st.SubSize, Subnet: st.Subnet,
 			Cond: map[string]int{}, Key: map[string][]string{}, Pre: map[string]int{}, NowMs: int(st.Now / time.Millisecond)}
 		for k, x := range st.Cond {
 			ev.Cond[k] = b2i(x)
